@@ -32,6 +32,7 @@ var encs32 = []enc32{
 	{"idx.Frame", func(v uint32) []byte { return idx.Frame(v).Bytes() }, func(b []byte) uint32 { return uint32(idx.BytesToFrame(b)) }, true},
 	{"idx.Pack", func(v uint32) []byte { return idx.Pack(v).Bytes() }, func(b []byte) uint32 { return uint32(idx.BytesToPack(b)) }, true},
 	{"idx.ValidatorID", func(v uint32) []byte { return idx.ValidatorID(v).Bytes() }, func(b []byte) uint32 { return uint32(idx.BytesToValidatorID(b)) }, true},
+	{"idx.Validator", func(v uint32) []byte { return idx.Validator(v).Bytes() }, func(b []byte) uint32 { return uint32(idx.BytesToValidator(b)) }, true},
 	{"littleendian.Uint32", littleendian.Uint32ToBytes, littleendian.BytesToUint32, false},
 }
 
